@@ -239,6 +239,10 @@ func (r *Runner) Step(o Op) Reply {
 		return Reply{Kind: "st"}
 	case o.Proc == "twin":
 		r.Twin(o.Id)
+		// the walk reads every file of the running server, and READ over holes allocates (finding F25): the free
+		// counts the next call is judged against must be the ones after the walk
+		fmt.Fprintf(r.w, "C %d null\nR st 0\n", o.Id)
+		r.checkpoint(true)
 		return Reply{Kind: "st"}
 	case o.Proc == "idle":
 		r.Idle()
